@@ -1,7 +1,8 @@
 (* C16 — Matched-status counts track the actual matched set.
-   Model: Disc/MatchedModel.v — `run sd fx compat st0 acts` is the bookkeeping of one local
-   DataWriter (sd = Wr) / DataReader (sd = Rd) driven by the discovery actions `acts`
-   (fx = false: the code as it is; fx = true: the code with proposed_fixes/C16-matched-bookkeeping.diff);
+   Model: Disc/MatchedModel.v — `run compat st0 acts` is the bookkeeping of one local DataWriter
+   or DataReader (both sides run the same logic) driven by the discovery actions `acts`:
+   participant discovered, endpoint announced / updated, endpoint deleted, participant departed
+   or ignored, participant lease expired, idle worker iteration, status read.
    `irun compat ideal0 acts` is the specification: the set of remote endpoints that are
    announced with compatible QoS, not deleted and whose participant has not departed; total
    counts every unmatched->matched transition once; a status read returns
@@ -10,15 +11,15 @@
 From DustDDS Require Import Base.Machine Disc.MatchedModel Disc.MatchedProofs.
 Open Scope Z_scope.
 
-(* With the proposed patch, for ALL histories of endpoint creation, QoS update, deletion,
-   participant departure / lease expiry / ignore, interleaved with status reads, on both sides:
-   every status read returns exactly the specified four numbers, the matched list is the
-   specified set (same order, no duplicates), current_count = its length, total_count = the
-   number of distinct matches, and the RTPS proxy set is exactly the matched set (so no DATA /
-   HEARTBEAT is addressed to an unmatched endpoint). *)
-Theorem C16_patched_code_meets_spec :
-  forall sd compat acts,
-    let r := run sd true compat st0 acts in
+(* For ALL histories of endpoint creation, QoS update, deletion, participant departure / lease
+   expiry / ignore, interleaved with status reads: every status read returns exactly the specified
+   four numbers (so the change fields are the differences since the last read), the matched list
+   is the specified set (same order, no duplicates), current_count = its length, total_count =
+   the number of distinct matches, and the RTPS proxy set is exactly the matched set (no DATA /
+   HEARTBEAT is addressed to an endpoint that is deleted, incompatible or whose participant is gone). *)
+Theorem C16_counts_track_matched_set :
+  forall compat acts,
+    let r := run compat st0 acts in
     let ir := irun compat ideal0 acts in
     snd r = snd ir /\
     keys (matched (fst r)) = i_keys (fst ir) /\
@@ -26,32 +27,7 @@ Theorem C16_patched_code_meets_spec :
     total (fst r) = i_total (fst ir) /\
     NoDup (keys (matched (fst r))) /\
     map x_key (prox (fst r)) = keys (matched (fst r)).
-Proof. exact fixed_refines_spec_clean. Qed.
-
-(* The code as it is: the same for every history that never (1) updates a matched endpoint with
-   compatible QoS, (2) updates a matched endpoint to incompatible QoS, (3) removes a participant
-   that owns a matched endpoint (classes decided on the specification state, see class_of);
-   deletions of matched endpoints (class 4) are allowed here: status replies, list, counts. *)
-Theorem C16_counts_track_matched_set_outside_known_classes :
-  forall sd compat acts,
-    first_class compat false ideal0 acts = 0%N ->
-    let r := run sd false compat st0 acts in
-    let ir := irun compat ideal0 acts in
-    snd r = snd ir /\
-    keys (matched (fst r)) = i_keys (fst ir) /\
-    cur (fst r) = zlen (matched (fst r)) /\
-    total (fst r) = i_total (fst ir) /\
-    NoDup (keys (matched (fst r))).
-Proof. exact faithful_counts_clean. Qed.
-
-(* ... and the RTPS proxy set equals the matched set for every history that in addition never
-   deletes a matched endpoint (class 4). *)
-Theorem C16_proxies_eq_matched_outside_known_classes :
-  forall sd compat acts,
-    first_class compat true ideal0 acts = 0%N ->
-    let r := run sd false compat st0 acts in
-    map x_key (prox (fst r)) = keys (matched (fst r)).
-Proof. exact faithful_proxies_clean. Qed.
+Proof. exact counts_track_matched_set. Qed.
 
 (* The specification itself: a status read returns (total, total - total at the previous read,
    size of the set, size - size at the previous read); total grows by one exactly when an
@@ -68,50 +44,17 @@ Theorem C16_spec_read_and_match :
     (compat d = true -> kmem (ekey d) (i_keys i) = true -> fst (istep compat i (ADisc d)) = i).
 Proof. exact spec_read_and_match. Qed.
 
-(* Each class really breaks the property on the code as it is (both sides). *)
-Theorem C16_update_of_matched_endpoint_is_recounted :
-  exists acts,
-    first_class wcompat false ideal0 acts = 1%N /\
-    snd (run Wr false wcompat st0 acts) <> snd (irun wcompat ideal0 acts) /\
-    snd (run Rd false wcompat st0 acts) <> snd (irun wcompat ideal0 acts).
-Proof. exact class1_refuted. Qed.
-
-Theorem C16_incompatible_update_stays_matched :
-  exists acts,
-    first_class wcompat false ideal0 acts = 2%N /\
-    snd (run Wr false wcompat st0 acts) <> snd (irun wcompat ideal0 acts) /\
-    snd (run Rd false wcompat st0 acts) <> snd (irun wcompat ideal0 acts).
-Proof. exact class2_refuted. Qed.
-
-Theorem C16_participant_removal_keeps_counts :
-  exists acts,
-    first_class wcompat false ideal0 acts = 3%N /\
-    snd (run Wr false wcompat st0 acts) <> snd (irun wcompat ideal0 acts) /\
-    snd (run Rd false wcompat st0 acts) <> snd (irun wcompat ideal0 acts).
-Proof. exact class3_refuted. Qed.
-
-Theorem C16_deleted_endpoint_keeps_rtps_proxy :
-  exists acts,
-    first_class wcompat true ideal0 acts = 4%N /\
-    first_class wcompat false ideal0 acts = 0%N /\
-    map x_key (prox (fst (run Wr false wcompat st0 acts))) <>
-    keys (matched (fst (run Wr false wcompat st0 acts))).
-Proof. exact class4_refuted. Qed.
-
-(* non-vacuity: a history outside the classes with matches, an incompatible endpoint,
-   deletions and a graceful departure; the statuses are non-trivial *)
+(* non-vacuity / regression: the four histories that broke the property before the fixes (QoS
+   update of a matched endpoint; update to incompatible QoS; lease expiry of the participant;
+   deletion) and a mixed history, with their status replies (reader deadline >= 10 is compatible) *)
 Example C16_nonvacuous :
-  let acts := [APart 1; APart 2; ADisc w_r; ADisc (mkEp 2 3 0 30 1); ADisc (mkEp 2 4 0 5 1); ARead;
-               AGone (2, 3); AGone (2, 4); APartGone 2; ARead] in
-  first_class wcompat false ideal0 acts = 0%N /\
-  snd (run Wr false wcompat st0 acts) = [(2, 2, 2, 2); (2, 0, 1, -1)].
-Proof. exact clean_history_nonvacuous. Qed.
+  snd (run wcompat st0 [APart 1; ADisc w_r; ARead; ADisc (mkEp 1 7 0 20 5); ARead]) = [(1, 1, 1, 1); (1, 0, 1, 0)] /\
+  snd (run wcompat st0 [APart 1; ADisc w_r; ARead; ADisc (mkEp 1 7 0 5 0); ARead]) = [(1, 1, 1, 1); (1, 0, 0, -1)] /\
+  snd (run wcompat st0 [APart 1; ADisc w_r; ARead; AStale 1; ATick; ARead]) = [(1, 1, 1, 1); (1, 0, 0, -1)] /\
+  prox (fst (run wcompat st0 [APart 1; ADisc w_r; AGone (1, 7)])) = [] /\
+  snd (run wcompat st0 [APart 1; APart 2; ADisc w_r; ADisc (mkEp 2 3 0 30 1); ADisc (mkEp 2 4 0 5 1); ARead;
+                        AGone (2, 3); AGone (2, 4); APartGone 2; ARead]) = [(2, 2, 2, 2); (2, 0, 1, -1)].
+Proof. exact regression_histories. Qed.
 
-Print Assumptions C16_patched_code_meets_spec.
-Print Assumptions C16_counts_track_matched_set_outside_known_classes.
-Print Assumptions C16_proxies_eq_matched_outside_known_classes.
+Print Assumptions C16_counts_track_matched_set.
 Print Assumptions C16_spec_read_and_match.
-Print Assumptions C16_update_of_matched_endpoint_is_recounted.
-Print Assumptions C16_incompatible_update_stays_matched.
-Print Assumptions C16_participant_removal_keeps_counts.
-Print Assumptions C16_deleted_endpoint_keeps_rtps_proxy.
